@@ -46,3 +46,10 @@ Definition check (kept : list (bool * nat)) (all_done : bool) (log : list bool) 
   && forallb (fun k => fst k && (1 <=? snd k)) kept     (* a kept handle is backed by a live session *)
   && alt true log                                        (* never left twice / joined twice in a row *)
   && Bool.eqb sub (negb (match kept with [] => true | _ => false end)).  (* left iff no handle remains *)
+
+(** Runs against the real gossip manager observe less: kept handles and the number of
+    GossipEvent::Left events. *)
+Definition check_real (kept : list (bool * nat)) (all_done : bool) (left : nat) : bool :=
+  all_done
+  && forallb (fun k => fst k && (1 <=? snd k)) kept
+  && (match kept with [] => 1 <=? left | _ => true end).
